@@ -10,6 +10,12 @@
 //!   limx <rows> <coll> <apply> ; <cypher>             C33, engine only (operators outside the model's fragment) -> ok|ALTERED
 //!   limt <timeout_ms> ; <cypher>                      C33, soft timeout, in a child process -> ok|ALTERED|HANG
 //!   w <classes> ; <prefix> ; <pred> ; <suffix>        C19: the four queries             -> partition|lost:k|dup:k|err | base=.. t=.. f=.. n=..
+//!   qg <graph> ; <plan tokens> ; <cypher>             C22 on the fixed graph number <graph> (built by `build_graph`, no setup lines)
+//!   limg <graph> <rows> <coll> <apply> ; <plan tokens> ; <cypher>     C33 on a fixed graph
+//!   limxg <graph> <rows> <coll> <apply> ; <cypher>    C33 on a fixed graph, engine only
+//! On graph lines the plan tokens carry the graph facts the plan needs as row tables (node scans,
+//! the rows every expansion / procedure call yields per input row, index entries), materialised at
+//! generation time from the same graph.
 //! The plan tokens are the ENGINE'S OWN compiled plan (verif hook `PreparedQuery::verif_plan`)
 //! translated structurally into the operator model's syntax; `classes` is the class (T/F/N/O/E) of the
 //! predicate's value for every row of the unfiltered query, computed by the engine at generation time.
@@ -34,14 +40,87 @@ pub fn def_where() -> StreamDef {
 struct S {
     _dir: tempfile::TempDir,
     db: Db,
+    graphs: std::collections::HashMap<u64, (tempfile::TempDir, Db)>,
 }
 
 impl S {
     fn new() -> Self {
+        register_fixtures();
         let dir = tempfile::tempdir().expect("tempdir");
         let db = Db::open(dir.path().join("plan.ndb")).expect("open");
-        S { _dir: dir, db }
+        S { _dir: dir, db, graphs: std::collections::HashMap::new() }
     }
+
+    fn graph(&mut self, id: u64) -> &Db {
+        &self.graphs.entry(id).or_insert_with(|| build_graph(id)).1
+    }
+}
+
+// ------------------------------------------------------------------ fixed graphs, procedure fixtures
+
+/// `test.my.proc(in :: INTEGER) :: (out :: INTEGER)`: 1 -> 10, 11; 2 -> 20; 3 -> 30; anything else -> no row;
+/// a non-integer argument is an error
+fn register_fixtures() {
+    use nervusdb_query::executor::{TestProcedureField, TestProcedureFixture, TestProcedureType, register_test_procedure_fixture};
+    let row = |i: i64, o: i64| {
+        let mut m = std::collections::BTreeMap::new();
+        m.insert("in".to_string(), Value::Int(i));
+        m.insert("out".to_string(), Value::Int(o));
+        m
+    };
+    register_test_procedure_fixture(
+        "test.my.proc",
+        TestProcedureFixture {
+            inputs: vec![TestProcedureField { name: "in".into(), field_type: TestProcedureType::Integer, nullable: false }],
+            outputs: vec![TestProcedureField { name: "out".into(), field_type: TestProcedureType::Integer, nullable: true }],
+            rows: vec![row(1, 10), row(1, 11), row(2, 20), row(3, 30)],
+        },
+    );
+}
+
+const GRAPH_V: &[&str] = &["1", "0", "2", "'true'", "'false'", "true", "false", "'x'", "'7'"];
+const GRAPH_K: &[&str] = &["'s'", "'t'", "'u'"];
+
+/// the fixed graph number `id`: a few `:N` nodes (`i` = index, `v` = a value of mixed type, `k` = a
+/// short string, indexed on even ids), two `:M` nodes, `:R` edges among the `:N` nodes (a ring, some
+/// chords, now and then a loop or a parallel edge), `:S` edges from `:N` to `:M`
+pub fn build_graph(id: u64) -> (tempfile::TempDir, Db) {
+    let dir = tempfile::tempdir().expect("tempdir");
+    let db = Db::open(dir.path().join("graph.ndb")).expect("open");
+    let mut rng = Rng::new(id.wrapping_mul(0x9e3779b97f4a7c15) ^ 0x5bd1e995);
+    let nn = 4 + rng.below(3) as i64;
+    let w = |cy: String| {
+        let r = run_write(&db, &cy);
+        assert!(r == "ok", "graph setup failed: {} -> {}", cy, r);
+    };
+    for i in 0..nn {
+        let v = *rng.pick(GRAPH_V);
+        let k = *rng.pick(GRAPH_K);
+        w(format!("CREATE (:N {{i: {}, v: {}, k: {}}})", i, v, k));
+    }
+    for i in 0..2 {
+        w(format!("CREATE (:M {{i: {}, v: {}}})", i, *rng.pick(GRAPH_V)));
+    }
+    let edge = |a: i64, b: i64| w(format!("MATCH (a:N {{i: {}}}), (b:N {{i: {}}}) CREATE (a)-[:R]->(b)", a, b));
+    for i in 0..nn {
+        edge(i, (i + 1) % nn);
+        if rng.chance(1, 3) {
+            edge(i, (i + 2) % nn);
+        }
+        if rng.chance(1, 8) {
+            edge(i, i);
+        }
+        if rng.chance(1, 8) {
+            edge(i, (i + 1) % nn);
+        }
+        if rng.chance(1, 2) {
+            w(format!("MATCH (a:N {{i: {}}}), (b:M {{i: {}}}) CREATE (a)-[:S]->(b)", i, rng.below(2)));
+        }
+    }
+    if id % 2 == 0 {
+        db.create_index("N", "k").expect("index");
+    }
+    (dir, db)
 }
 
 // ------------------------------------------------------------------ canonical output
@@ -56,6 +135,13 @@ pub fn canon_value(v: &Value) -> String {
         Value::Float(f) => format!("f{:016x}", f.to_bits()),
         Value::List(xs) => format!("[{}]", xs.iter().map(canon_value).collect::<Vec<_>>().join(",")),
         Value::NodeId(n) => format!("n{}", n),
+        // opaque tokens (the model never looks inside): relationship keys and paths
+        Value::EdgeKey(e) => format!("s~e{}_{}_{}", e.src, e.rel, e.dst),
+        Value::Path(p) => format!(
+            "s~p{}|{}",
+            p.nodes.iter().map(|n| n.to_string()).collect::<Vec<_>>().join("_"),
+            p.edges.iter().map(|e| format!("{}.{}.{}", e.src, e.rel, e.dst)).collect::<Vec<_>>().join("_")
+        ),
         other => format!("?{:?}", other).replace([' ', '\t', '\n'], "_"),
     }
 }
@@ -297,14 +383,271 @@ fn scalar_token(l: &Literal) -> Option<String> {
 /// is compiled against them) and whether we are inside an argument that `ensure_runtime_…`
 /// evaluates for its type check (the model does not follow subqueries run there)
 #[derive(Clone)]
-struct Cx {
+struct Cx<'g> {
     cols: Vec<String>,
     checked_arg: bool,
+    gx: Option<&'g Gx<'g>>,
+}
+
+/// graph context of a translation (generation time): the leaves, expansions, index seeks and
+/// procedure calls of the engine's plan are materialised against this snapshot into row tables
+pub struct Gx<'g> {
+    snap: &'g nervusdb_core::DbSnapshot,
+    /// the graph-dependent atoms of the query's expressions — `alias.property`, `alias:Label` —
+    /// carried by the table rows as pseudo-columns of that name: (alias, column name, expression)
+    props: Vec<(String, String, Expression)>,
+}
+
+/// `alias.property` / `alias:Label` as a pseudo-column: (alias, column name)
+fn graph_atom(e: &Expression) -> Option<(String, String)> {
+    match e {
+        Expression::PropertyAccess(pa) if ident_ok(&pa.variable) && ident_ok(&pa.property) => {
+            Some((pa.variable.clone(), format!("{}.{}", pa.variable, pa.property)))
+        }
+        Expression::Binary(b) if matches!(b.operator, BinaryOperator::HasLabel) => match (&b.left, &b.right) {
+            (Expression::Variable(a), Expression::Literal(Literal::String(l))) if ident_ok(a) && ident_ok(l) => {
+                Some((a.clone(), format!("{}:{}", a, l)))
+            }
+            _ => None,
+        },
+        _ => None,
+    }
+}
+
+const MAX_TABLE_ROWS: usize = 160;
+const MAX_LINE_TOKENS: usize = 9000;
+
+fn val_tokens(v: &Value, out: &mut Vec<String>) -> Option<()> {
+    match v {
+        Value::List(xs) => {
+            out.push("list".into());
+            out.push(xs.len().to_string());
+            for x in xs {
+                if matches!(x, Value::List(_)) {
+                    return None;
+                }
+                val_tokens(x, out)?;
+            }
+        }
+        Value::Null | Value::Bool(_) | Value::Int(_) | Value::String(_) | Value::NodeId(_) | Value::EdgeKey(_) | Value::Path(_) => {
+            let t = canon_value(v);
+            if t.chars().any(|c| c.is_whitespace()) || t.len() < 2 {
+                return None;
+            }
+            out.push(t);
+        }
+        _ => return None,
+    }
+    Some(())
+}
+
+impl<'g> Gx<'g> {
+    fn params() -> Params {
+        Params::with_execute_options(unlimited())
+    }
+
+    /// `r <k> (<name> <value>)*`: the row's columns, then the pseudo-columns of its node bindings
+    fn row_tokens(&self, r: &Row, out: &mut Vec<String>) -> Option<()> {
+        let params = Self::params();
+        let mut cols: Vec<(String, Value)> = r.columns().to_vec();
+        for (a, name, e) in &self.props {
+            match r.get(a) {
+                Some(Value::NodeId(_)) | Some(Value::Node(_)) | Some(Value::Null) | Some(Value::EdgeKey(_)) | Some(Value::Relationship(_)) => {
+                    let v = nervusdb_query::evaluator::evaluate_expression_value(e, r, self.snap, &params);
+                    cols.push((name.clone(), v));
+                }
+                _ => {}
+            }
+        }
+        out.push("r".into());
+        out.push(cols.len().to_string());
+        for (k, v) in &cols {
+            if k.is_empty() || k.chars().any(|c| c.is_whitespace()) {
+                return None;
+            }
+            out.push(k.clone());
+            val_tokens(v, out)?;
+        }
+        Some(())
+    }
+
+    fn items_tokens(&self, items: &[Result<Row, Error>], out: &mut Vec<String>) -> Option<()> {
+        out.push(items.len().to_string());
+        for it in items {
+            match it {
+                Ok(r) => {
+                    out.push("ok".into());
+                    self.row_tokens(r, out)?;
+                }
+                Err(e) => {
+                    let c = err_class(e);
+                    if c.starts_with("limit") {
+                        return None;
+                    }
+                    out.push("err".into());
+                    out.push(c);
+                }
+            }
+        }
+        Some(())
+    }
+
+    /// the distinct `Ok` rows the engine's plan yields (the rows the operator above it can meet)
+    fn rows_of(&self, p: &Plan) -> Option<Vec<Row>> {
+        let params = Self::params();
+        let mut seen = std::collections::BTreeSet::new();
+        let mut rows = Vec::new();
+        for it in nervusdb_query::executor::execute_plan(self.snap, p, &params) {
+            if let Ok(r) = it {
+                if seen.insert(canon_row(&r)) {
+                    rows.push(r);
+                    if rows.len() > MAX_TABLE_ROWS {
+                        return None;
+                    }
+                }
+            }
+        }
+        Some(rows)
+    }
+
+    /// `<n> (<input row> <k> <item>*k)*n`: what the node yields for every single input row
+    fn table_tokens(&self, node: &Plan, inp: &Plan, out: &mut Vec<String>) -> Option<()> {
+        let rows = self.rows_of(inp)?;
+        out.push(rows.len().to_string());
+        for r in rows {
+            self.row_tokens(&r, out)?;
+            let one = with_input(node, Plan::Values { rows: vec![r.clone()] })?;
+            let params = Self::params();
+            let items: Vec<Result<Row, Error>> = nervusdb_query::executor::execute_plan(self.snap, &one, &params).collect();
+            if items.len() > MAX_TABLE_ROWS {
+                return None;
+            }
+            self.items_tokens(&items, out)?;
+            if out.len() > MAX_LINE_TOKENS {
+                return None;
+            }
+        }
+        Some(())
+    }
+}
+
+/// the node with its input plan replaced (Match* with input, ProcedureCall)
+fn with_input(node: &Plan, inp: Plan) -> Option<Plan> {
+    let mut n = node.clone();
+    match &mut n {
+        Plan::MatchOut { input, .. } | Plan::MatchOutVarLen { input, .. } | Plan::MatchIn { input, .. } | Plan::MatchUndirected { input, .. } => {
+            *input = Some(Box::new(inp))
+        }
+        Plan::MatchBoundRel { input, .. } | Plan::ProcedureCall { input, .. } => *input = Box::new(inp),
+        _ => return None,
+    }
+    Some(n)
+}
+
+fn walk_expr(e: &Expression, f: &mut dyn FnMut(&Expression)) {
+    f(e);
+    match e {
+        Expression::List(items) => items.iter().for_each(|x| walk_expr(x, f)),
+        Expression::Unary(u) => walk_expr(&u.operand, f),
+        Expression::Binary(b) => {
+            walk_expr(&b.left, f);
+            walk_expr(&b.right, f);
+        }
+        Expression::FunctionCall(c) => c.args.iter().for_each(|x| walk_expr(x, f)),
+        Expression::Case(c) => {
+            if let Some(x) = &c.expression {
+                walk_expr(x, f);
+            }
+            for (w, t) in &c.when_clauses {
+                walk_expr(w, f);
+                walk_expr(t, f);
+            }
+            if let Some(x) = &c.else_expression {
+                walk_expr(x, f);
+            }
+        }
+        _ => {}
+    }
+}
+
+fn walk_plan_exprs(p: &Plan, f: &mut dyn FnMut(&Expression)) {
+    match p {
+        Plan::Filter { input, predicate } => {
+            walk_expr(predicate, f);
+            walk_plan_exprs(input, f);
+        }
+        Plan::Project { input, projections } => {
+            projections.iter().for_each(|(_, e)| walk_expr(e, f));
+            walk_plan_exprs(input, f);
+        }
+        Plan::Aggregate { input, aggregates, .. } => {
+            for (a, _) in aggregates {
+                match a {
+                    AggregateFunction::Count(Some(e)) | AggregateFunction::Collect(e) | AggregateFunction::Sum(e) | AggregateFunction::Min(e) | AggregateFunction::Max(e) => walk_expr(e, f),
+                    _ => {}
+                }
+            }
+            walk_plan_exprs(input, f);
+        }
+        Plan::OrderBy { input, items } => {
+            items.iter().for_each(|(e, _)| walk_expr(e, f));
+            walk_plan_exprs(input, f);
+        }
+        Plan::Unwind { input, expression, .. } => {
+            walk_expr(expression, f);
+            walk_plan_exprs(input, f);
+        }
+        Plan::Skip { input, skip: e } | Plan::Limit { input, limit: e } => {
+            walk_expr(e, f);
+            walk_plan_exprs(input, f);
+        }
+        Plan::Distinct { input } | Plan::MatchBoundRel { input, .. } => walk_plan_exprs(input, f),
+        Plan::ProcedureCall { input, args, .. } => {
+            args.iter().for_each(|e| walk_expr(e, f));
+            walk_plan_exprs(input, f);
+        }
+        Plan::MatchOut { input, .. } | Plan::MatchOutVarLen { input, .. } | Plan::MatchIn { input, .. } | Plan::MatchUndirected { input, .. } => {
+            if let Some(i) = input {
+                walk_plan_exprs(i, f)
+            }
+        }
+        Plan::IndexSeek { value_expr, fallback, .. } => {
+            walk_expr(value_expr, f);
+            walk_plan_exprs(fallback, f);
+        }
+        Plan::OptionalWhereFixup { outer, filtered, .. } => {
+            walk_plan_exprs(outer, f);
+            walk_plan_exprs(filtered, f);
+        }
+        Plan::Union { left, right, .. } | Plan::CartesianProduct { left, right } => {
+            walk_plan_exprs(left, f);
+            walk_plan_exprs(right, f);
+        }
+        Plan::Apply { input, subquery, .. } => {
+            walk_plan_exprs(input, f);
+            walk_plan_exprs(subquery, f);
+        }
+        _ => {}
+    }
+}
+
+fn collect_props(p: &Plan) -> Vec<(String, String, Expression)> {
+    let mut out: Vec<(String, String, Expression)> = Vec::new();
+    walk_plan_exprs(p, &mut |e| {
+        if let Some((a, name)) = graph_atom(e) {
+            if !out.iter().any(|(_, n, _)| *n == name) {
+                out.push((a, name, e.clone()));
+            }
+        }
+    });
+    out
 }
 
 fn expr_tokens(e: &Expression, cx: &Cx, out: &mut Vec<String>) -> Option<()> {
     match e {
         Expression::Literal(l) => out.push(scalar_token(l)?),
+        // a property / label test of a bound node: the pseudo-column the graph tables carry
+        _ if cx.gx.is_some() && graph_atom(e).is_some() => out.push(format!("v{}", graph_atom(e)?.1)),
         Expression::Variable(v) if ident_ok(v) => out.push(format!("v{}", v)),
         Expression::List(items) => {
             let lit = |it: &Expression| -> Option<String> {
@@ -371,7 +714,7 @@ fn expr_tokens(e: &Expression, cx: &Cx, out: &mut Vec<String>) -> Option<()> {
                 ("range", 2) => out.push("range".into()),
                 _ => return None,
             }
-            let inner = Cx { cols: cx.cols.clone(), checked_arg: true };
+            let inner = Cx { cols: cx.cols.clone(), checked_arg: true, gx: cx.gx };
             for a in &c.args {
                 expr_tokens(a, &inner, out)?;
             }
@@ -393,7 +736,7 @@ fn expr_tokens(e: &Expression, cx: &Cx, out: &mut Vec<String>) -> Option<()> {
             ExistsExpression::Subquery(q) if !cx.checked_arg => {
                 let sub = nervusdb_query::query_api::verif_compile_exists_subquery(q, &cx.cols).ok()?;
                 out.push("existsx".into());
-                plan_tokens(&sub, out)?;
+                plan_tokens(&sub, None, out)?;
             }
             _ => return None,
         },
@@ -462,17 +805,54 @@ fn collect_aliases(p: &Plan, out: &mut Vec<String>) {
             collect_aliases(input, out);
             collect_aliases(subquery, out);
         }
+        Plan::NodeScan { alias, .. } => push(alias),
+        Plan::IndexSeek { alias, fallback, .. } => {
+            push(alias);
+            collect_aliases(fallback, out);
+        }
+        Plan::MatchOut { input, src_alias, edge_alias, dst_alias, .. }
+        | Plan::MatchOutVarLen { input, src_alias, edge_alias, dst_alias, .. }
+        | Plan::MatchIn { input, src_alias, edge_alias, dst_alias, .. }
+        | Plan::MatchUndirected { input, src_alias, edge_alias, dst_alias, .. } => {
+            push(src_alias);
+            push(dst_alias);
+            if let Some(e) = edge_alias {
+                push(e);
+            }
+            if let Some(i) = input {
+                collect_aliases(i, out);
+            }
+        }
+        Plan::MatchBoundRel { input, rel_alias, src_alias, dst_alias, .. } => {
+            push(rel_alias);
+            push(src_alias);
+            push(dst_alias);
+            collect_aliases(input, out);
+        }
+        Plan::ProcedureCall { input, yields, .. } => {
+            for (f, a) in yields {
+                push(a.as_ref().unwrap_or(f));
+            }
+            collect_aliases(input, out);
+        }
+        Plan::OptionalWhereFixup { outer, filtered, .. } => {
+            collect_aliases(outer, out);
+            collect_aliases(filtered, out);
+        }
         _ => {}
     }
 }
 
 /// structural translation of the engine's plan; `None` = outside the model's fragment
-fn plan_tokens(p: &Plan, out: &mut Vec<String>) -> Option<()> {
+fn plan_tokens(p: &Plan, gx: Option<&Gx>, out: &mut Vec<String>) -> Option<()> {
     let cx_of = |input: &Plan| {
         let mut cols = Vec::new();
         collect_aliases(input, &mut cols);
-        Cx { cols, checked_arg: false }
+        Cx { cols, checked_arg: false, gx }
     };
+    if out.len() > MAX_LINE_TOKENS {
+        return None;
+    }
     match p {
         Plan::ReturnOne => out.push("one".into()),
         // the leaf of an EXISTS subquery: the outer row (column values are placeholders here)
@@ -481,7 +861,7 @@ fn plan_tokens(p: &Plan, out: &mut Vec<String>) -> Option<()> {
             out.push("unwind".into());
             out.push(alias.clone());
             expr_tokens(expression, &cx_of(input), out)?;
-            plan_tokens(input, out)?;
+            plan_tokens(input, gx, out)?;
         }
         Plan::Filter { input, predicate } => match predicate {
             Expression::Exists(ex) => match ex.as_ref() {
@@ -490,15 +870,15 @@ fn plan_tokens(p: &Plan, out: &mut Vec<String>) -> Option<()> {
                     collect_aliases(input, &mut cols);
                     let sub = nervusdb_query::query_api::verif_compile_exists_subquery(q, &cols).ok()?;
                     out.push("exists".into());
-                    plan_tokens(&sub, out)?;
-                    plan_tokens(input, out)?;
+                    plan_tokens(&sub, None, out)?;
+                    plan_tokens(input, gx, out)?;
                 }
                 _ => return None,
             },
             _ => {
                 out.push("filter".into());
                 expr_tokens(predicate, &cx_of(input), out)?;
-                plan_tokens(input, out)?;
+                plan_tokens(input, gx, out)?;
             }
         },
         Plan::Project { input, projections } => {
@@ -511,21 +891,21 @@ fn plan_tokens(p: &Plan, out: &mut Vec<String>) -> Option<()> {
                 out.push(alias.clone());
                 expr_tokens(e, &cx_of(input), out)?;
             }
-            plan_tokens(input, out)?;
+            plan_tokens(input, gx, out)?;
         }
         Plan::Distinct { input } => {
             out.push("distinct".into());
-            plan_tokens(input, out)?;
+            plan_tokens(input, gx, out)?;
         }
         Plan::Skip { input, skip } => {
             out.push("skip".into());
             expr_tokens(skip, &cx_of(input), out)?;
-            plan_tokens(input, out)?;
+            plan_tokens(input, gx, out)?;
         }
         Plan::Limit { input, limit } => {
             out.push("limit".into());
             expr_tokens(limit, &cx_of(input), out)?;
-            plan_tokens(input, out)?;
+            plan_tokens(input, gx, out)?;
         }
         Plan::OrderBy { input, items } => {
             out.push("order".into());
@@ -534,7 +914,7 @@ fn plan_tokens(p: &Plan, out: &mut Vec<String>) -> Option<()> {
                 expr_tokens(e, &cx_of(input), out)?;
                 out.push(if matches!(d, Direction::Ascending) { "asc" } else { "desc" }.into());
             }
-            plan_tokens(input, out)?;
+            plan_tokens(input, gx, out)?;
         }
         Plan::Aggregate { input, group_by, aggregates } => {
             out.push("agg".into());
@@ -549,23 +929,119 @@ fn plan_tokens(p: &Plan, out: &mut Vec<String>) -> Option<()> {
             for (f, alias) in aggregates {
                 agg_tokens(f, alias, &cx_of(input), out)?;
             }
-            plan_tokens(input, out)?;
+            plan_tokens(input, gx, out)?;
         }
         Plan::Union { left, right, all } => {
             out.push("union".into());
             out.push(if *all { "all" } else { "dist" }.into());
-            plan_tokens(left, out)?;
-            plan_tokens(right, out)?;
+            plan_tokens(left, gx, out)?;
+            plan_tokens(right, gx, out)?;
         }
         Plan::CartesianProduct { left, right } => {
             out.push("cart".into());
-            plan_tokens(left, out)?;
-            plan_tokens(right, out)?;
+            plan_tokens(left, gx, out)?;
+            plan_tokens(right, gx, out)?;
         }
         Plan::Apply { input, subquery, .. } => {
             out.push("apply".into());
-            plan_tokens(input, out)?;
-            plan_tokens(subquery, out)?;
+            plan_tokens(input, gx, out)?;
+            plan_tokens(subquery, None, out)?;
+        }
+        // ---- graph-backed nodes: only with a snapshot to materialise them against
+        Plan::NodeScan { .. }
+        | Plan::MatchOut { input: None, .. }
+        | Plan::MatchOutVarLen { input: None, .. }
+        | Plan::MatchIn { input: None, .. }
+        | Plan::MatchUndirected { input: None, .. } => {
+            let g = gx?;
+            let params = Gx::params();
+            let items: Vec<Result<Row, Error>> = nervusdb_query::executor::execute_plan(g.snap, p, &params).collect();
+            if items.len() > MAX_TABLE_ROWS || items.iter().any(|r| r.is_err()) {
+                return None;
+            }
+            out.push("scan".into());
+            out.push(items.len().to_string());
+            for r in items.iter().flatten() {
+                g.row_tokens(r, out)?;
+            }
+        }
+        Plan::IndexSeek { alias, label, field, value_expr, fallback } => {
+            let g = gx?;
+            out.push("seek".into());
+            expr_tokens(value_expr, &Cx { cols: vec![], checked_arg: false, gx }, out)?;
+            // run the seek with a marker in place of the fallback: the marker comes back iff the fallback ran
+            let marker = Row::new(vec![("__fallback".to_string(), Value::Bool(true))]);
+            let probe = Plan::IndexSeek {
+                alias: alias.clone(),
+                label: label.clone(),
+                field: field.clone(),
+                value_expr: value_expr.clone(),
+                fallback: Box::new(Plan::Values { rows: vec![marker] }),
+            };
+            let params = Gx::params();
+            let items: Vec<Result<Row, Error>> = nervusdb_query::executor::execute_plan(g.snap, &probe, &params).collect();
+            let fell_back = items.iter().any(|r| match r {
+                Ok(r) => r.get("__fallback").is_some(),
+                Err(_) => true,
+            });
+            if fell_back {
+                out.push("miss".into());
+            } else {
+                out.push("hit".into());
+                out.push(items.len().to_string());
+                for r in items.iter().flatten() {
+                    g.row_tokens(r, out)?;
+                }
+            }
+            plan_tokens(fallback, gx, out)?;
+        }
+        Plan::MatchOut { input: Some(inp), .. }
+        | Plan::MatchOutVarLen { input: Some(inp), .. }
+        | Plan::MatchIn { input: Some(inp), .. }
+        | Plan::MatchUndirected { input: Some(inp), .. } => {
+            let g = gx?;
+            out.push("expand".into());
+            out.push(
+                match p {
+                    Plan::MatchOut { .. } => "out",
+                    Plan::MatchOutVarLen { .. } => "varlen",
+                    Plan::MatchIn { .. } => "in",
+                    _ => "undirected",
+                }
+                .into(),
+            );
+            g.table_tokens(p, inp, out)?;
+            plan_tokens(inp, gx, out)?;
+        }
+        Plan::MatchBoundRel { input, .. } => {
+            let g = gx?;
+            out.push("expand".into());
+            out.push("boundrel".into());
+            g.table_tokens(p, input, out)?;
+            plan_tokens(input, gx, out)?;
+        }
+        Plan::ProcedureCall { input, args, .. } => {
+            let g = gx?;
+            out.push("call".into());
+            out.push(args.len().to_string());
+            for a in args {
+                expr_tokens(a, &cx_of(input), out)?;
+            }
+            g.table_tokens(p, input, out)?;
+            plan_tokens(input, gx, out)?;
+        }
+        Plan::OptionalWhereFixup { outer, filtered, null_aliases } => {
+            gx?;
+            out.push("fixup".into());
+            out.push(null_aliases.len().to_string());
+            for a in null_aliases {
+                if a.is_empty() || a.chars().any(|c| c.is_whitespace()) {
+                    return None;
+                }
+                out.push(a.clone());
+            }
+            plan_tokens(outer, gx, out)?;
+            plan_tokens(filtered, gx, out)?;
         }
         _ => return None,
     }
@@ -576,7 +1052,20 @@ fn plan_tokens(p: &Plan, out: &mut Vec<String>) -> Option<()> {
 fn model_plan(cypher: &str) -> Option<String> {
     let q = prepare(cypher).ok()?;
     let mut out = Vec::new();
-    plan_tokens(q.verif_plan(), &mut out)?;
+    plan_tokens(q.verif_plan(), None, &mut out)?;
+    Some(out.join(" "))
+}
+
+/// the same against a graph: leaves, expansions, seeks and calls become row tables
+fn model_plan_db(db: &Db, cypher: &str) -> Option<String> {
+    let q = prepare(cypher).ok()?;
+    let snap = db.snapshot();
+    let gx = Gx { snap: &snap, props: collect_props(q.verif_plan()) };
+    let mut out = Vec::new();
+    plan_tokens(q.verif_plan(), Some(&gx), &mut out)?;
+    if out.len() > MAX_LINE_TOKENS {
+        return None;
+    }
     Some(out.join(" "))
 }
 
@@ -610,6 +1099,42 @@ impl State for S {
                 } else {
                     format!("{} | rows={}", o.show(), emitted)
                 }
+            }
+            "qg" if ws.len() > 2 => {
+                let id = ws[1].parse::<u64>().unwrap_or(0);
+                let (o, emitted) = run_query(self.graph(id), &last, unlimited());
+                if ws.contains(&"existsx") {
+                    format!("{} | rows=-", o.show())
+                } else {
+                    format!("{} | rows={}", o.show(), emitted)
+                }
+            }
+            "limg" if ws.len() > 5 => {
+                let id = ws[1].parse::<u64>().unwrap_or(0);
+                let o = ExecuteOptions {
+                    max_intermediate_rows: num(ws[2]),
+                    max_collection_items: num(ws[3]),
+                    max_apply_rows_per_outer: num(ws[4]),
+                    soft_timeout_ms: 0,
+                };
+                let db = self.graph(id);
+                let (unl, emitted) = run_query(db, &last, unlimited());
+                let (lim, _) = run_query(db, &last, o);
+                let rows = if ws.contains(&"existsx") { "-".to_string() } else { emitted.to_string() };
+                format!("{} | lim={} unl={} rows={}", limited_rel(&unl, &lim), lim.show_l(), unl.show_l(), rows)
+            }
+            "limxg" if ws.len() > 5 => {
+                let id = ws[1].parse::<u64>().unwrap_or(0);
+                let o = ExecuteOptions {
+                    max_intermediate_rows: num(ws[2]),
+                    max_collection_items: num(ws[3]),
+                    max_apply_rows_per_outer: num(ws[4]),
+                    soft_timeout_ms: 0,
+                };
+                let db = self.graph(id);
+                let (unl, _) = run_query(db, &last, unlimited());
+                let (lim, _) = run_query(db, &last, o);
+                if limited_rel(&unl, &lim) == "ALTERED" { "ALTERED".into() } else { "ok".into() }
             }
             "lim" if ws.len() > 4 => {
                 let (unl, emitted) = run_query(&self.db, &last, unlimited());
@@ -695,6 +1220,23 @@ impl State for S {
                 Err(e) => format!("err:prepare:{}", err_class(&e)),
             },
             "tokens" => model_plan(&last).unwrap_or_else(|| "unsupported".into()),
+            "tokensg" if ws.len() > 2 => {
+                let id = ws[1].parse::<u64>().unwrap_or(0);
+                model_plan_db(self.graph(id), &last).unwrap_or_else(|| "unsupported".into())
+            }
+            "showg" if ws.len() > 2 => {
+                let id = ws[1].parse::<u64>().unwrap_or(0);
+                match run_query(self.graph(id), &last, unlimited()).0 {
+                    Outcome::Rows(rows) => {
+                        format!("ok {} | {}", rows.len(), rows.iter().map(canon_row).collect::<Vec<_>>().join(" / "))
+                    }
+                    Outcome::Err(e) => format!("err:{}", e),
+                }
+            }
+            "explaing" => match prepare(&format!("EXPLAIN {}", last)) {
+                Ok(q) => q.explain_string().unwrap_or("").replace('\n', " // "),
+                Err(e) => format!("err:prepare:{}", err_class(&e)),
+            },
             _ => "bad-op".into(),
         }
     }
